@@ -188,6 +188,7 @@ type engaPersistReq struct {
 	raw     []byte
 	done    chan error
 	written bool
+	zero    bool // encoded from unassigned persistRouter/persistStatus/persistActions
 }
 
 type engaEnsure struct {
@@ -226,6 +227,7 @@ type engaNode struct {
 	ledger Ledger
 	disk   []byte        // row 1 of the Service table (persistence.go:110); nil = no row
 	diskRound round      // player round of the state in disk (bookkeeping for labels only)
+	diskZero  bool       // disk holds the zero state written by a re-executed restored attest (see doPseudonode)
 	wall   time.Duration // the node's wall clock; survives crashes, set by the scheduler
 
 	lastActions []action // actions of the last transition (for observers)
@@ -280,6 +282,7 @@ type engaSim struct {
 	// dedupe against already-delivered copies (safety runs); when false only pending identical copies are merged
 	dedupeDelivered bool
 	keepDup         func() bool // scheduler hook: keep a copy that dedupe would drop?
+	hold            func(m *engaMsg) bool // scheduler hook: messages held back by the network for now
 
 	// history
 	ref      Ledger // reference ledger holding the agreed prefix
@@ -774,7 +777,7 @@ func (n *engaNode) doPseudonode(a pseudonodeAction) {
 		if !n.persistSet {
 			s.stats.zeroPersist++
 		}
-		req := &engaPersistReq{round: n.persistStatus.Round, period: n.persistStatus.Period, step: n.persistStatus.Step, raw: raw, done: done}
+		req := &engaPersistReq{round: n.persistStatus.Round, period: n.persistStatus.Period, step: n.persistStatus.Step, raw: raw, done: done, zero: !n.persistSet}
 		// asyncPersistenceLoop.pending has capacity 1 and the loop holds one more (persistence.go:321,358): a third
 		// Enqueue blocks demuxLoop until the oldest write finished
 		for len(n.persistQ) >= 2 {
@@ -799,6 +802,7 @@ func (n *engaNode) diskWrite() bool {
 	n.persistQ = n.persistQ[1:]
 	n.disk = req.raw // persist(): insert or replace row 1
 	n.diskRound = req.round
+	n.diskZero = req.zero
 	req.written = true
 	n.sim.stats.diskWrites++
 	n.sim.tracef("n%d DISKWRITE (%d,%d,%d) %dB", n.id, req.round, req.period, req.step, len(req.raw))
@@ -1033,6 +1037,9 @@ func (s *engaSim) noteVote(uv unauthenticatedVote) {
 
 func (s *engaSim) deliverable(m *engaMsg) bool {
 	if !s.nodes[m.dst].up {
+		return false
+	}
+	if s.hold != nil && s.hold(m) {
 		return false
 	}
 	if m.src < 0 {
